@@ -248,6 +248,9 @@ def run(ck):
         elif is_ref_to(o.get("obj"), indecl):
             fl = open_flags(o)
             ck.ob("C08-O5", sitestr(fn, o), fl is not None and fl & 1 and not fl & 16, "the rotated file is read in binary mode" if (fl is not None and fl & 1 and not fl & 16) else "input opened with %s" % flagnames(fl), key="compressFile|input-mode")
+    ck.rule("C08-O7", "a size of the active file read before a rotation is not used after it (the daily check may rotate before the size check runs)")
+    from rules.rfs import stale_size
+    stale_size(ck, S, "C08-O7")
 
 
 def crc32(ck, S):
